@@ -39,3 +39,15 @@ package parse
 //@   requires r != nil
 //@   modifies nothing
 //@   ensures result == r.resmod
+
+// C12: one JSON object names exactly one modifier. An object with several keys would otherwise be read as whichever
+// key the map iteration yields first, silently dropping the others.
+//@ func FromJSON
+//@   serves C12
+//@   dyncalls-opaque
+//@   noframe
+//@   modifies parseMu.rheld
+//@   requires !parseMu.wheld && parseMu.rheld == 0
+//@   ensures[lock-released] parseMu.rheld == 0
+//@   at call 0 of Unmarshal after havoc msg[*]
+//@   at call 0 of RLock before assert[exactly-one-modifier-per-object] len(msg) == 1
